@@ -182,7 +182,23 @@ impl Prop for C02Prop {
             // the multi-line literal shapes of C12 (its generator), judged by C02's oracle
             return crate::props::c12::C12.generate(stream, t);
         }
-        wf::wf_generate(stream, t, true)
+        let mut c = wf::wf_generate(stream, t, true)?;
+        // line-ending variants of the whole file (tokens spanning lines change with it)
+        let nl = match t.below(12) {
+            0..=2 => "\r\n",
+            3 => "\r",
+            _ => return Some(c),
+        };
+        c.input = c.input.replace('\n', nl);
+        if let Some(a) = c.ann.as_mut() {
+            for l in a.lexemes.iter_mut() {
+                if l.contains('\n') {
+                    *l = l.replace('\n', nl);
+                }
+            }
+        }
+        c.tags.push(if nl == "\r" { "endings:cr".into() } else { "endings:crlf".into() });
+        Some(c)
     }
     fn check(&self, case: &Case, ctx: &mut Ctx) -> Outcome {
         let Some(ann) = &case.ann else { return Outcome::Discard("no-annotation") };
